@@ -1,7 +1,142 @@
-(* C02 property theorems only. *)
+(* C02 property theorems only.  Vocabulary: Model.v (executable model of the Go code) and Spec.v
+   (ucfg/uaddr/uwp = union of changed keys, anyforced, rc k = count of reason k, lastpush = newest snapshot). *)
 From Coq Require Import List NArith Bool.
-From V Require Import C02.Model C02.Proofs.
+From V Require Import C02.Model C02.Spec C02.Proofs C02.Proofs2.
+Import ListNotations.
+Open Scope N_scope.
 
-Theorem C02_merge_forced : forall a b, forced (merge_v a b) = (forced a || forced b)%bool.
-Proof. exact merge_forced. Qed.
-Print Assumptions C02_merge_forced.
+(* PushRequest.Merge: keys union, forced or, reasons add, older start, newest non-nil snapshot. *)
+Theorem C02_merge_algebra : forall a b, algebra (merge_v a b) a b (newest (push a) (push b)).
+Proof. exact merge_algebra. Qed.
+Print Assumptions C02_merge_algebra.
+
+(* PushRequest.CopyMerge: the same, except that the snapshot is other.Push unconditionally ... *)
+Theorem C02_copy_merge_algebra_partial : forall a b, algebra (copy_merge_v a b) a b (push b).
+Proof. exact copy_merge_algebra. Qed.
+Print Assumptions C02_copy_merge_algebra_partial.
+
+(* ... which is the newest snapshot whenever the later request carries one ... *)
+Theorem C02_copy_merge_newest_partial : forall a b,
+  push b <> None -> push (copy_merge_v a b) = newest (push a) (push b).
+Proof. exact copy_merge_newest. Qed.
+Print Assumptions C02_copy_merge_newest_partial.
+
+(* ... and is NOT in general (finding C02-copymerge-drops-snapshot; the witness is run against the real code). *)
+Theorem C02_copy_merge_newest_refuted : exists a b, push (copy_merge_v a b) <> newest (push a) (push b).
+Proof. exact copy_merge_newest_refuted. Qed.
+Print Assumptions C02_copy_merge_newest_refuted.
+
+(* PushQueue, every op sequence, every connection: what Dequeue handed out for c together with what is
+   still parked for c carries exactly the keys / forced flag / reason counts of what Enqueue accepted for c. *)
+Theorem C02_queue_no_loss : forall ops c,
+  let l := qrun ops in
+  let out := of_conn c (q_del l) ++ parked (q_st l) c in
+  let inp := of_conn c (q_acc l) in
+  ucfg out = ucfg inp /\ uaddr out = uaddr inp /\ uwp out = uwp inp /\ anyforced out = anyforced inp /\
+  (forall k, rc k out = rc k inp).
+Proof. exact queue_no_loss. Qed.
+Print Assumptions C02_queue_no_loss.
+
+(* newest snapshot through the queue: true when every enqueued request carries a snapshot, false otherwise *)
+Theorem C02_queue_newest_partial : forall ops c,
+  (forall c' r, In (Enq c' r) ops -> push r <> None) ->
+  let l := qrun ops in
+  lastpush (of_conn c (q_del l) ++ parked (q_st l) c) = lastpush (of_conn c (q_acc l)).
+Proof. exact queue_newest_partial. Qed.
+Print Assumptions C02_queue_newest_partial.
+
+Theorem C02_queue_newest_refuted : exists ops c, let l := qrun ops in
+  lastpush (of_conn c (q_del l) ++ parked (q_st l) c) <> lastpush (of_conn c (q_acc l)).
+Proof. exact queue_newest_refuted. Qed.
+Print Assumptions C02_queue_newest_refuted.
+
+(* One push in flight per connection: after any op sequence the queue invariant holds, hence what Dequeue
+   returns is not in [processing] and carries a request. *)
+Theorem C02_one_in_flight : forall ops q' c r,
+  dequeue (q_st (qrun ops)) = (q', DItem c r) ->
+  alookup c (processing (q_st (qrun ops))) = None /\ r <> None.
+Proof. intros ops q' c r. apply dequeue_not_in_flight, qinv_qrun. Qed.
+Print Assumptions C02_one_in_flight.
+
+(* An Enqueue arriving while c is in flight is parked in [processing] and re-queued, merged, by MarkDone ... *)
+Theorem C02_requeue_after_done : forall q c cur r,
+  down q = false -> alookup c (processing q) = Some cur ->
+  let q' := mark_done (enqueue q c r) c in
+  alookup c (pending q') = copy_merge_o cur (Some r) /\ In c (queue q') /\ alookup c (processing q') = None.
+Proof. exact enqueue_during_processing. Qed.
+Print Assumptions C02_requeue_after_done.
+
+(* ... and whoever sits at position n of the FIFO is handed its pending request by the (n+1)-th Dequeue. *)
+Theorem C02_fifo_service : forall ops n c,
+  nth_error (queue (q_st (qrun ops))) n = Some c ->
+  exists r, snd (dequeue (deq_n n (q_st (qrun ops)))) = DItem c (Some r) /\
+            alookup c (pending (q_st (qrun ops))) = Some r.
+Proof. intros ops n c. apply dequeue_serves_position, qinv_qrun. Qed.
+Print Assumptions C02_fifo_service.
+
+(* Isolation: Enqueue / MarkDone for c leave what is stored for every other connection untouched. *)
+Theorem C02_isolation : forall q c c' r, c <> c' ->
+  (alookup c' (pending (enqueue q c r)) = alookup c' (pending q) /\
+   alookup c' (processing (enqueue q c r)) = alookup c' (processing q)) /\
+  (alookup c' (pending (mark_done q c)) = alookup c' (pending q) /\
+   alookup c' (processing (mark_done q c)) = alookup c' (processing q)).
+Proof. intros q c c' r H. split; [now apply enqueue_isolation|now apply mark_done_isolation]. Qed.
+Print Assumptions C02_isolation.
+
+(* debounce, every input sequence (receives, timer firings ripe or not, push completions): the pushed
+   requests plus the one still held carry exactly what the debounced events carried, newest snapshot included. *)
+Theorem C02_debounce_covers : forall o is,
+  let '(s, outs) := drun o dst_init is in
+  let out := pushed outs ++ match d_req s with Some r => [r] | None => [] end in
+  let inp := debounced_inputs o is in
+  ucfg out = ucfg inp /\ uaddr out = uaddr inp /\ uwp out = uwp inp /\ anyforced out = anyforced inp /\
+  lastpush out = lastpush inp /\ (forall k, rc k out = rc k inp).
+Proof. exact debounce_covers. Qed.
+Print Assumptions C02_debounce_covers.
+
+(* pushes out of debounce never overlap: a Push is emitted only when none is in flight (or by the very step
+   that completes the previous one), alone, and it becomes the one in flight *)
+Theorem C02_debounce_no_overlap : forall o is s outs0 i s' outs r n,
+  drun o dst_init is = (s, outs0) -> dstep o s i = (s', outs) -> In (Push r n) outs ->
+  outs = [Push r n] /\ d_inflight s' = Some n /\ d_req s = Some r /\ d_events s = n /\
+  (d_inflight s = None \/ exists ripe, i = PushDone ripe).
+Proof.
+  intros o is s outs0 i s' outs r n Hrun. apply dstep_no_overlap.
+  eapply dinv_run; [exact dinv_init|exact Hrun].
+Qed.
+Print Assumptions C02_debounce_no_overlap.
+
+(* updateSent: committed + in flight + held = number of events received, at every moment *)
+Theorem C02_debounce_committed : forall o is s outs,
+  drun o dst_init is = (s, outs) -> dcount s = received is.
+Proof.
+  intros o is s outs H. rewrite (debounce_committed o is dst_init s outs dinv_init H). reflexivity.
+Qed.
+Print Assumptions C02_debounce_committed.
+
+(* never stuck: in every reachable state, if something is held and no push is running a timer is armed; and
+   "running push completes, timer fires ripe" always empties what is held *)
+Theorem C02_debounce_progress : forall o is s outs,
+  drun o dst_init is = (s, outs) ->
+  (d_req s <> None -> d_free s = true -> d_timer s = true) /\
+  d_req (fst (drun o s [PushDone true; Tick true])) = None.
+Proof.
+  intros o is s outs H. pose proof (dinv_run o is dst_init s outs dinv_init H) as Hi.
+  split; [apply Hi|now apply debounce_flush].
+Qed.
+Print Assumptions C02_debounce_progress.
+
+(* hypotheses are satisfiable / the statements are not vacuous *)
+Example C02_ex_queue_merge :
+  let a := mkReq (Some 1) None None (Some [(2, 1)]) (Some 1) 1 false in
+  let b := mkReq (Some 4) (Some 2) None None (Some 2) 2 true in
+  snd (dequeue (enqueue (enqueue pq_empty 7 a) 7 b)) =
+  DItem 7 (Some (mkReq (Some 5) (Some 2) None (Some [(2, 1)]) (Some 2) 1 true)).
+Proof. vm_compute. reflexivity. Qed.
+
+Example C02_ex_debounce :
+  let a := mkReq (Some 8) None None None None 1 false in
+  let b := mkReq (Some 16) None None (Some [(2, 1)]) None 2 true in
+  snd (drun (mkDopts true 7) dst_init [Recv a; Tick false; Recv b; Tick true]) =
+  [Push (mkReq (Some 24) None None (Some [(0, 1); (2, 1)]) None 1 true) 2].
+Proof. vm_compute. reflexivity. Qed.
